@@ -1,7 +1,7 @@
 (* Model of the list level of stagemaker's add-files handling:
      stage/fileList.go   GenerateFileList, ReadUserFileList (with strings.TrimSpace and the
                          comment test), unescapeAsterisks, Finalize/Names
-     stage/addRemove.go  addFiles, addFromWildcard, removeFiles, globFiles, expandSubdirs
+     stage/addRemove.go  addFiles, addFromWildcard, removeFiles (path.Match on member names), globFiles, expandSubdirs
      stage/expand.go     addSingleFile as far as it decides membership, type and link target
    over an abstract build root (a list of paths with their kind).  path/filepath.Glob and
    filepath.Match are modelled (not verified) for patterns whose only metacharacters are
@@ -262,12 +262,23 @@ Definition add_files (t : tree) (l : flist) (e : entry) : ares :=
     else add_single t l e
   end.
 
+(* path.Match(pattern, member name) for patterns of literals and "*": a star does not cross a slash *)
+Fixpoint pmatch (p : list gtok) (s : bytes) {struct p} : bool :=
+  match p with
+  | [] => match s with [] => true | _ => false end
+  | GLit c :: p' => match s with x :: s' => Ascii.eqb c x && pmatch p' s' | [] => false end
+  | GStar :: p' =>
+    (fix star (s : bytes) : bool :=
+       pmatch p' s || match s with x :: s' => negb (Ascii.eqb x c_slash) && star s' | [] => false end) s
+  end.
+
+(* removeFiles: a wildcard selects MEMBERS of the list (the pattern, as written, against every
+   member name); a plain name must be a member *)
 Definition remove_files (t : tree) (l : flist) (e : entry) : ares :=
   if e_wild e then
-    match glob t (e_name e) with
-    | GErr => AErr
-    | GOut => AOod
-    | GOk ms => AOk (fold_left fl_del ms l)
+    match gtokens (e_name e) with
+    | GPat p => AOk (filter (fun x => negb (pmatch p (l_name x))) l)
+    | _ => AOod            (* ? [ or a dangling backslash in the pattern: outside the model *)
     end
   else if fl_has l (e_name e) then AOk (fl_del l (e_name e)) else AErr.
 
@@ -345,6 +356,42 @@ Definition run_list (t : tree) (pre : flist) (init : list bytes) (lines : list b
        | RLPanic => (LsPanic, false)
        | RLDone st => (if rl_err st then LsErr else LsOk (lsort (rl_list st)), rl_ood st)
        end.
+
+(* stage/supplement.go AddMissingStageDirs, which cmd/stagemaker/paths.go runs once more after the
+   user lists: every member's directory (path.Dir) and all its ancestors down to the top-level
+   one become members of type dir *)
+Fixpoint anc_chain (fuel : nat) (d : bytes) : list bytes :=
+  d :: match fuel with
+       | O => []
+       | S f => match fst (pathsplit d) with
+                | [] => []
+                | [_] => []
+                | dp => anc_chain f (removelast dp)
+                end
+       end.
+Definition dir_entry (d : bytes) : entry :=
+  MkE V_FileType_dir d [] [] 0 0 0 0 0 0 0 false false false false false false.
+Fixpoint add_dirs (t : tree) (l : flist) (ds : list bytes) : ares :=
+  match ds with
+  | [] => AOk l
+  | d :: r => if fl_has l d then add_dirs t l r
+              else match add_single t l (dir_entry d) with AOk l' => add_dirs t l' r | x => x end
+  end.
+Definition add_missing_dirs (t : tree) (l : flist) : ares :=
+  add_dirs t l (flat_map (fun e => let d := pathdir (l_name e) in anc_chain (length d) d) l).
+
+(* the stagemaker pipeline from the user lists on: ReadUserFileList, AddMissingStageDirs, Finalize *)
+Definition run_proc (t : tree) (pre : flist) (lines : list bytes) : list_res * bool :=
+  match read_lines t (MkRL pre false false) lines with
+  | RLPanic => (LsPanic, false)
+  | RLDone st =>
+    if rl_err st then (LsErr, rl_ood st)
+    else match add_missing_dirs t (rl_list st) with
+         | AOk l => (LsOk (lsort l), rl_ood st)
+         | AErr => (LsErr, rl_ood st)
+         | AOod => (LsErr, true)
+         end
+  end.
 
 Definition lentry_beq (a b : lentry) : bool :=
   beq (l_name a) (l_name b) && (l_type a =? l_type b) && beq (l_target a) (l_target b).
